@@ -29,6 +29,11 @@ def units(tier):
     return namemap.units()
 
 
-def bounded(tier, seed):
+def _bounded(tier, seed):
     from pyvc.native_bridge import bounded_pure
     return [bounded_pure(tier, "c17", "c17", "sampled 3-subsets and random 4..8-subsets of a 28-word vocabulary x ndim {None,3,4} x 2 required sets x node/edge", seed, exhaustive=False)]
+
+
+def bounded(tier, seed):
+    from ._common import model_checks
+    return _bounded(tier, seed) + model_checks(tier, "difflib", shape=False, seed=seed)
